@@ -17,6 +17,8 @@ def alias(l):
             return ("QN", args[0])
         if name.endswith("::fold"):
             return "FIRST_OCCURRENCES"
+        if "HashMap" in name and (name.endswith(">::new") or name.endswith(">::with_capacity")):
+            return "FIRST_OCCURRENCES"   # the map being built when the first-occurrence pass is a plain loop
         if name.endswith("::entry") and len(args) == 2:
             return ("ENTRY", args[1])
         if name.endswith("OccupiedEntry::<'a, K, V, A>::get"):
@@ -50,16 +52,8 @@ def dsum(d):
     return (d["kind"], fmt_label(d["range"]), [fmt_label(r) for r in (d["related"] or [])])
 
 
-def fold_rule(rep, facts, owner, cname, captures, elem, prop, what, with_conflict):
-    fn = facts.fn(owner)
-    clos = facts.closures_of(owner)
-    fold = [c for c in clos if facts.fns[c]["body"]["arg_count"] == 3]
-    if len(fold) != 1:
-        rep.fail("F", "%s|F|%s|anchor-missing|fold-closure" % (prop, owner), cfg.where(fn), "expected one fold closure (map, element) in %s, found %d" % (owner, len(fold)))
-        return
-    paths, _ = run_closure(facts, fold[0], captures, [Opaque("map"), sym_ref(elem)], opaque_fns=[QN], pure_fns=[QN, "std::iter::Iterator::min_by_key", "std::iter::Iterator::min",
-                           "std::iter::Iterator::find", "std::iter::Iterator::min_by", "std::iter::Iterator::max_by_key"], alias=alias)
-    cf = facts.fns[fold[0]]
+def phase1_paths(rep, facts, paths, cf, elem, prop, what, with_conflict, is_closure):
+    """the first-occurrence pass, one element: repeat -> one Error pointing back, nothing stored; first -> stored under its qualified name"""
     seen = set()
     for p in paths:
         cm = conds_of(p)
@@ -67,8 +61,14 @@ def fold_rule(rep, facts, owner, cname, captures, elem, prop, what, with_conflic
         callsx = [e for e in p.effects if e[0] == "call"]
         entry = [c for c in callsx if c[1].endswith("::entry")]
         vins = [c for c in callsx if "VacantEntry" in c[1] and c[1].endswith("::insert")]
-        other = [c for c in callsx if c not in entry + vins] + [e for e in p.effects if e[0] not in ("call", "push", "iterate", "iterate_end")]
-        ret_ok = p.exit == "return" and base_label(lab(p.ret)) == "map"
+        ctor = [c for c in callsx if ("HashMap" in c[1] and (c[1].endswith(">::new") or c[1].endswith(">::with_capacity"))) or c[1].endswith("<impl [T]>::len") or c[1].endswith("Vec::<T, A>::len")]
+        other = [c for c in callsx if c not in entry + vins + ctor] + [e for e in p.effects if e[0] not in ("call", "push", "iterate", "iterate_end", "next", "next_end")]
+        if is_closure:
+            ret_ok = p.exit == "return" and base_label(lab(p.ret)) == "map"
+            map_ok = True
+        else:
+            ret_ok = p.exit == "loop_back"
+            map_ok = all(base_label(e[2][0]) == "FIRST_OCCURRENCES" for e in entry)   # entries are made on the map that is classified and returned
         conflict = cm.get("CONFLICT")
         ent = [v for k, v in cm.items() if isinstance(k, tuple) and k[0] == "ENTRY"]
         key_ok = all(e[2][1] == ("QN", elem) for e in entry)
@@ -94,12 +94,28 @@ def fold_rule(rep, facts, owner, cname, captures, elem, prop, what, with_conflic
             ok = False
             exp = "-"
         seen.add(case)
-        rep.check(ok and ret_ok and not other, "F", "%s|F|%s|%s" % (prop, what, case), cfg.where(cf),
-                  "%s, case %s: expected %s; extracted diagnostics %r, entry calls %d, insertions %d, other effects %r, returns the map: %s" % (
-                      what, case, exp, diags, len(entry), len(vins), [fmt_label(o[1:3]) for o in other], ret_ok),
-                  sample={"fold": what, "case": case, "diagnostics": diags})
+        rep.check(ok and ret_ok and map_ok and not other and not iteration_problems(p), "F", "%s|F|%s|%s" % (prop, what, case), cfg.where(cf),
+                  "%s, case %s: expected %s; extracted diagnostics %r, entry calls %d, insertions %d, other effects %r, continues with the same map: %s" % (
+                      what, case, exp, diags, len(entry), len(vins), [fmt_label(o[1:3]) for o in other], ret_ok and map_ok),
+                  sample={"first-occurrence pass": what, "case": case, "diagnostics": diags})
     need = {"repeat", "first"} | ({"conflict"} if with_conflict else set())
     rep.check(need <= seen, "F", "%s|F|%s|cases" % (prop, what), cfg.where(cf), "%s must distinguish the cases %s, found %s" % (what, sorted(need), sorted(seen)))
+
+
+def fold_rule(rep, facts, owner, cname, captures, elem, prop, what, with_conflict):
+    """-> 'closure' when the first-occurrence pass is a fold closure (checked here), 'loop' when the owner has no such closure (the caller checks the loop)"""
+    fn = facts.fn(owner)
+    clos = facts.closures_of(owner)
+    fold = [c for c in clos if facts.fns[c]["body"]["arg_count"] == 3]
+    if not fold:
+        return "loop"
+    if len(fold) != 1:
+        rep.fail("F", "%s|F|%s|anchor-missing|fold-closure" % (prop, owner), cfg.where(fn), "expected one fold closure (map, element) in %s, found %d" % (owner, len(fold)))
+        return "closure"
+    paths, _ = run_closure(facts, fold[0], captures, [Opaque("map"), sym_ref(elem)], opaque_fns=[QN], pure_fns=[QN, "std::iter::Iterator::min_by_key", "std::iter::Iterator::min",
+                           "std::iter::Iterator::find", "std::iter::Iterator::min_by", "std::iter::Iterator::max_by_key"], alias=alias)
+    phase1_paths(rep, facts, paths, facts.fns[fold[0]], elem, prop, what, with_conflict, True)
+    return "closure"
 
 
 def run(ctx, rep):
@@ -141,19 +157,29 @@ def run(ctx, rep):
     c05.matching_rules(ctx, rep, "C06")
     c05.builtin_tables(ctx, rep, "C06")
     # ---- F
-    fold_rule(rep, facts, "validation::check_imports", None, {"diagnostics": Opaque("diagnostics")}, "import", "C06", "imports", False)
-    fold_rule(rep, facts, "validation::check_declared_parcelables", None, {"diagnostics": Opaque("diagnostics"), "imports": sym_ref("imports")}, "declared_parcelable", "C06", "forward declarations", True)
+    form_i = fold_rule(rep, facts, "validation::check_imports", None, {"diagnostics": Opaque("diagnostics")}, "import", "C06", "imports", False)
+    form_d = fold_rule(rep, facts, "validation::check_declared_parcelables", None, {"diagnostics": Opaque("diagnostics"), "imports": sym_ref("imports")}, "declared_parcelable", "C06", "forward declarations", True)
+    PURE1 = [QN, "std::iter::Iterator::min_by_key", "std::iter::Iterator::min", "std::iter::Iterator::find", "std::iter::Iterator::min_by", "std::iter::Iterator::max_by_key"]
 
     # ---- L imports
     def on_next(src):
         s = fmt_label(src)
         if "FIRST_OCCURRENCES" in s:
             return AdtVal("tuple", None, {0: Cell(Ref(Cell(Opaque("q")))), 1: Cell(Ref(Cell(Ref(Cell(Opaque("entry", "ast::Import"))))))})
+        if s in ("imports_list", "(iter, imports_list)"):
+            return sym_ref("import")   # the first-occurrence pass written as a plain loop over the statement list
         return None
     fci = facts.fn("validation::check_imports")
-    m = Machine(facts, opaque_fns=[FQN], pure_fns=[FQN, "std::iter::Iterator::fold", "<std::slice::Iter<'a, T> as std::iter::Iterator>::fold"], alias=alias, on_next=on_next)
+    m = Machine(facts, opaque_fns=[FQN, QN], pure_fns=[FQN, "std::iter::Iterator::fold", "<std::slice::Iter<'a, T> as std::iter::Iterator>::fold"] + PURE1, alias=alias, on_next=on_next)
     paths = m.run("validation::check_imports", [sym_ref("imports_list"), sym_ref("resolved"), sym_ref("defined"), sym_ref("diagnostics", mut=True)])
-    body = [p for p in paths if p.exit == "loop_back"]
+    is_ph1 = lambda p: any(isinstance(l, tuple) and l[0] == "next" and fmt_label(l[1]) in ("imports_list", "(iter, imports_list)", "decl_list", "(iter, decl_list)") and v == "Some" for l, v in p.conds)
+    ph1 = [p for p in paths if p.exit == "loop_back" and is_ph1(p)]
+    if form_i == "loop":
+        rep.floor("F", "first-occurrence loop paths (imports)", len(ph1), 2)
+        phase1_paths(rep, facts, ph1, fci, "import", "C06", "imports", False, False)
+    else:
+        rep.check(not ph1, "F", "C06|F|imports|second-pass", cfg.where(fci), "check_imports has a fold closure AND a loop over the statement list")
+    body = [p for p in paths if p.exit == "loop_back" and not is_ph1(p)]
     rest = [p for p in paths if p.exit != "loop_back"]
     rep.check(len(rest) == 1 and rest[0].exit == "return" and not rest[0].pushes() and base_label(lab(rest[0].ret)) == "FIRST_OCCURRENCES", "L", "C06|L|imports|outside-loop", cfg.where(fci),
               "outside the classification loop check_imports emits nothing and returns the map of first occurrences")
@@ -164,7 +190,7 @@ def run(ctx, rep):
         p2 = cm.get(("BUILTIN", "q"))  # 'None' = not a built-in
         p3 = cm.get(("USED", "q"))
         diags = [diag_of(e) for e in p.pushes("diagnostics")]
-        other = only_pushes(p)
+        other = [e for e in only_pushes(p) if not (e[0] == "call" and (("HashMap" in e[1] and (e[1].endswith(">::new") or e[1].endswith(">::with_capacity"))) or e[1].endswith("<impl [T]>::len") or e[1].endswith("Vec::<T, A>::len")))]
         unresolved = (p1 is False) and (p2 == "None")
         if unresolved:
             exp = "U1"
@@ -192,11 +218,19 @@ def run(ctx, rep):
         s = fmt_label(src)
         if "FIRST_OCCURRENCES" in s:
             return AdtVal("tuple", None, {0: Cell(Opaque("q")), 1: Cell(Ref(Cell(Opaque("entry", "ast::Import"))))})
+        if s in ("decl_list", "(iter, decl_list)"):
+            return sym_ref("declared_parcelable")
         return None
     fcd = facts.fn("validation::check_declared_parcelables")
-    m = Machine(facts, pure_fns=["std::iter::Iterator::fold", "<std::slice::Iter<'a, T> as std::iter::Iterator>::fold"], alias=alias, on_next=on_next2)
+    m = Machine(facts, opaque_fns=[QN] if form_d == "loop" else [], pure_fns=["std::iter::Iterator::fold", "<std::slice::Iter<'a, T> as std::iter::Iterator>::fold"] + (PURE1 if form_d == "loop" else []), alias=alias, on_next=on_next2)
     paths = m.run("validation::check_declared_parcelables", [sym_ref("decl_list"), sym_ref("imports"), sym_ref("resolved"), sym_ref("diagnostics", mut=True)])
-    body = [p for p in paths if p.exit == "loop_back"]
+    ph1 = [p for p in paths if p.exit == "loop_back" and is_ph1(p)]
+    if form_d == "loop":
+        rep.floor("F", "first-occurrence loop paths (forward declarations)", len(ph1), 3)
+        phase1_paths(rep, facts, ph1, fcd, "declared_parcelable", "C06", "forward declarations", True, False)
+    else:
+        rep.check(not ph1, "F", "C06|F|declarations|second-pass", cfg.where(fcd), "check_declared_parcelables has a fold closure AND a loop over the statement list")
+    body = [p for p in paths if p.exit == "loop_back" and not is_ph1(p)]
     rest = [p for p in paths if p.exit != "loop_back"]
     rep.check(len(rest) == 1 and rest[0].exit == "return" and not rest[0].pushes(), "L", "C06|L|declarations|outside-loop", cfg.where(fcd), "outside the classification loop check_declared_parcelables emits nothing")
     seen = {}
